@@ -111,7 +111,8 @@ func genSpelling(t *rapid.T, label string) string {
 	return s
 }
 
-var c19Names = []string{"a", "b", "c.jet", "d"}
+// (names beginning with a dot are ordinary names)
+var c19Names = []string{"a", "b", "c.jet", "d", ".a", ".c.jet", "..d"}
 
 func genTree(t *rapid.T, label string) (files map[string]string, dirs []string) {
 	files = map[string]string{}
@@ -364,6 +365,23 @@ func buildLayer(l c19Layer, tmpRoot string, idx int, chdir *string) (jet.Loader,
 
 func judgeC19(c c19Case) (v core.Verdict) {
 	v.Label("kind:" + c.Kind)
+	if c.Kind == "inmem" {
+		// the history runs on a goroutine of its own: a loader that stops answering (a lock kept on some path)
+		// is reported as such instead of hanging the check
+		var hv core.Verdict
+		done := make(chan struct{})
+		go func() { defer close(done); hv = judgeC19InMem(c) }()
+		if stuck := waitOrDeadlock(done); stuck != "" {
+			v.Failf("InMemLoader history %v: the loader stopped answering; every goroutine inside the engine waits for a lock (twice the same picture, 10 s apart): %s", c.Ops, stuck)
+			return
+		}
+		hv.Labels = append(v.Labels, hv.Labels...)
+		return hv
+	}
+	return judgeC19FS(c)
+}
+
+func judgeC19InMem(c c19Case) (v core.Verdict) {
 	switch c.Kind {
 	case "inmem":
 		l := jet.NewInMemLoader()
@@ -426,6 +444,10 @@ func judgeC19(c c19Case) (v core.Verdict) {
 		v.NonTrivial = differs
 		return
 	}
+	return
+}
+
+func judgeC19FS(c c19Case) (v core.Verdict) {
 	tmp, err := os.MkdirTemp(core.OutDir(), "c19-")
 	if err != nil {
 		panic(err)
